@@ -93,6 +93,7 @@ class Contract:
                 ensures.pop(k, None)
         if pid is not None:
             requires += list(self.requires_for.get(pid, []))
+        requires = list(self._filter({i: r for i, r in enumerate(requires)}, pid).values())
         ensures = self._filter(ensures, pid)
         raises = self._filter(raises, pid)
         return params, requires, ensures, raises, may_raise, returns
